@@ -4,6 +4,8 @@
   (c16 u.new (L e*))            -> handle = next index; reply: contents `(L e*)`
   (c16 u.copy h)  (c16 u.add h x)  (c16 u.and h x)  (c16 u.sub h x)     x = (L e*) list operand, else one element
   (c16 u.addh h g) (c16 u.andh h g) (c16 u.subh h g)                    right operand is the ulist g
+  (c16 u.append h x) (c16 u.extend h (L e*)) (c16 u.iadd h (L e*)) (c16 u.insert h i x) (c16 u.setitem h i x) (c16 u.imul h n)
+                                in place on handle h (no new handle); reply: the contents of h afterwards; i, n ≥ 0
   (c16 d.sub d k|(L k*)) (c16 d.and d k|(L k*)) (c16 d.getl d (L k*)) (c16 d.gett d (T k*)) (c16 d.get d k)
   (c16 d.add d (D ..)) (c16 d.relabel d (D (old S:new)*)) (c16 d.keys d)       d = (DC <cls> (hexkey v)*)
   (c16 call (D (k I:n)*) (K hexkey I:n | (F I:c hexarg*))*)             keyword order = list order
@@ -13,6 +15,9 @@
   (c16 h.set h k v) (c16 h.setattr h k v) (c16 h.del h k) (c16 h.delattr h k)       in place; reply: the target afterwards
   (c16 h.get h k) (c16 h.getattr h k) (c16 h.gett h (T k*)) (c16 h.keys h)           reads
   (c16 h.dump)                                                                       reply: `(H d0 d1 …)`, the whole heap
+  `d.add` / `h.add` / `h.addh` are class-aware (`DA.addC`): for class 1 (`Dict`) they are C15's `tree_update`.
+  `h.getattr` of a name that is an attribute of the class replies `ok method`; `h.setattr` of a name starting with `_` leaves
+  the mapping as it is (a private instance attribute, not tracked by the model).
 
   ulist elements are canonicalised (`int n` ↦ `flt 4n`, recursively) so that decidable equality of `Val`
   is python `==` on the generated elements (no bools, no NaN).
@@ -20,6 +25,7 @@
 import PygModel.USet
 import PygModel.DictCall
 import PygModel.DAHeap
+import PygModel.DictAdd
 
 namespace Pyg.USetDriver
 open Pyg
@@ -51,6 +57,15 @@ def elems (s : Sexp) : Option (List Val) := do
   | _ => Option.none
 
 def push (s : St) (u : List Val) : Option (St × String) := some ((s.1 ++ [u], s.2), okList u)
+
+/-- an in-place ulist operation on handle `h`: reply with the contents afterwards (`IndexError` if it raises) -/
+def inplaceU (s : St) (h : Nat) (op : USet.Op Val) : Option (St × String) := do
+  let u ← s.1[h]?
+  match USet.inplace u op with
+  | some _ =>
+    let heap := USet.step s.1 op
+    some ((heap, s.2), okList (← heap[h]?))
+  | Option.none => some (s, "err IndexError")
 
 def strOf : Sexp → Option String
   | .atom a => match Cell.parse a with
@@ -117,6 +132,7 @@ def heapOp (s : St) (op : DAHeap.Op Val) (hs : List Nat) : Option (St × String)
       | .obj _ d => some (daRender d)
       | .unit => do pure (daRender (← heap[← op.target]?))
       | .val v => some v.render
+      | .method => some "method"
       | .vals vs => some (Val.list vs).render
       | .keys ks => some (Val.list (ks.map fun k => .cell (.str k))).render
     some ((s.1, heap), "ok " ++ reply)
@@ -144,6 +160,12 @@ def handle (s : St) (op : String) (args : List Sexp) : Option (St × String) := 
       match ← Val.ofSexp x with
       | .list xs => push s (USet.subList u (xs.map canonV))
       | e => push s (USet.subElem u (canonV e))
+  | "u.append", [h, x] => let h ← h.toNat?; inplaceU s h (.append h (canonV (← Val.ofSexp x)))
+  | "u.extend", [h, xs] => let h ← h.toNat?; inplaceU s h (.extend h (← elems xs))
+  | "u.iadd", [h, xs] => let h ← h.toNat?; inplaceU s h (.iadd h (← elems xs))
+  | "u.insert", [h, i, x] => let h ← h.toNat?; inplaceU s h (.insert h (← i.toNat?) (canonV (← Val.ofSexp x)))
+  | "u.setitem", [h, i, x] => let h ← h.toNat?; inplaceU s h (.setI h (← i.toNat?) (canonV (← Val.ofSexp x)))
+  | "u.imul", [h, n] => let h ← h.toNat?; inplaceU s h (.imul h (← n.toNat?))
   | "d.sub", [d, k] =>
       let d ← daOf d
       match k with
@@ -153,7 +175,7 @@ def handle (s : St) (op : String) (args : List Sexp) : Option (St × String) := 
   | "d.getl", [d, k] => pure1 (resStr (DA.getList (← daOf d) (← strsOf k)) daRender)
   | "d.gett", [d, k] => pure1 (resStr (DA.getTuple (← daOf d) (← strsOf k)) fun vs => (Val.list vs).render)
   | "d.get", [d, k] => pure1 (resStr (DA.getKey (← daOf d) (← strOf k)) Val.render)
-  | "d.add", [d, o] => pure1 ("ok " ++ daRender (DA.add (← daOf d) (← daOf o).items))
+  | "d.add", [d, o] => pure1 (resStr (DA.addC (← daOf d) (← daOf o).items) daRender)
   | "d.relabel", [d, m] =>
       let m ← (← daOf m).items.mapM fun (k, v) => match v with
         | .cell (.str s) => some (k, s)
